@@ -50,7 +50,7 @@ static Fd richardson(F f, double x0, double h, double value_noise = 0.0) {
   LD D1 = (4 * D[1] - D[0]) / 3, D2 = (4 * D[2] - D[1]) / 3;
   Fd r;
   r.d = (double)((16 * D2 - D1) / 15);
-  r.err = (double)fabsl(D2 - D1) + (32 * EPS * fm + 8 * value_noise) / std::fabs(h);
+  r.err = (double)fabsl(D2 - D1) + (32 * EPS * fm + 8 * value_noise + 1e-320 /* denormal quanta */) / std::fabs(h);
   r.fmax = fm;
   if (!std::isfinite(r.d)) r.err = INFINITY;
   return r;
@@ -78,6 +78,7 @@ static bool g_stats = false;
 static inline void stat(const std::string &k, double diff, double tol) {
   if (!g_stats) return;
   double r = tol > 0 ? diff / tol : (diff > 0 ? INFINITY : 0);
+  if (r > 0.05) std::cerr << "STATCASE " << k << " ratio " << r << " diff " << diff << " tol " << tol << " case " << vfh::current_case().substr(0, 600) << "\n";
   auto it = g_worst.find(k);
   if (it == g_worst.end() || it->second < r) g_worst[k] = r;
 }
@@ -548,12 +549,15 @@ static void part_pot(vfh::Rng &rng, vfh::Reporter &R, long ncases, const std::st
         // ---- first derivative
         const double l0 = pf.getOptParam(i), sc = pscale(i);
         auto fF = [&](double x) { pf.setOptParam(i, x); return pf.CalculateF(r); };
-        Fd d = fd_best(fF, l0, {1e-3 * sc, 3e-2 * sc, sc});
+        Fd d = fd_best(fF, l0, {1e-3 * sc, 1e-2 * sc, 1e-1 * sc});
         pf.setOptParam(i, l0);
         double an = pf.CalculateDF(i, r);
         R.eval(P.type + "_DF");
         double nat = d.fmax / sc;
-        if (!(d.err <= 1e-5 * std::max(std::fabs(d.d), nat))) { R.counter(P.type + "_DF_fd_unreliable_not_judged"); }
+        // results that live in the underflow range of double (exp() denormal) carry no precision
+        bool uflow = (an != 0 || d.d != 0) && std::max(std::fabs(an), std::fabs(d.d)) < 1e-280;
+        if (uflow) R.counter(P.type + "_DF_underflow_range_not_judged");
+        else if (!(d.err <= 1e-5 * std::max(std::fabs(d.d), nat) + 1e-290)) { R.counter(P.type + "_DF_fd_unreliable_not_judged"); }
         else {
           stat(P.type + "_DF", std::fabs(an - d.d), 1e-6 * std::max(std::fabs(an), std::fabs(d.d)) + 10 * d.err);
           if (!(std::fabs(an - d.d) <= 1e-6 * std::max(std::fabs(an), std::fabs(d.d)) + 10 * d.err))
@@ -577,10 +581,11 @@ static void part_pot(vfh::Rng &rng, vfh::Reporter &R, long ncases, const std::st
             R.violation(P.type + "/D2F/asymmetric", "CalculateD2F(i,j) != CalculateD2F(j,i)", wit().i("i", i).i("j", j).d("D2F_ij", a_ij).d("D2F_ji", a_ji));
           const double lj0 = pf.getOptParam(j), scj = pscale(j);
           auto fD = [&](double x) { pf.setOptParam(j, x); return pf.CalculateDF(i, r); };
-          Fd d2 = fd_best(fD, lj0, {1e-3 * scj, 3e-2 * scj, scj});
+          Fd d2 = fd_best(fD, lj0, {1e-3 * scj, 1e-2 * scj, 1e-1 * scj});
           pf.setOptParam(j, lj0);
           double nat2 = d2.fmax / scj;
-          if (!(d2.err <= 1e-5 * std::max(std::fabs(d2.d), nat2))) { R.counter(P.type + "_D2F_fd_unreliable_not_judged"); continue; }
+          if ((a_ij != 0 || d2.d != 0) && std::max(std::fabs(a_ij), std::fabs(d2.d)) < 1e-280) { R.counter(P.type + "_D2F_underflow_range_not_judged"); continue; }
+          if (!(d2.err <= 1e-5 * std::max(std::fabs(d2.d), nat2) + 1e-290)) { R.counter(P.type + "_D2F_fd_unreliable_not_judged"); continue; }
           stat(P.type + "_D2F", std::fabs(a_ij - d2.d), 1e-6 * std::max(std::fabs(a_ij), std::fabs(d2.d)) + 10 * d2.err);
           if (!(std::fabs(a_ij - d2.d) <= 1e-6 * std::max(std::fabs(a_ij), std::fabs(d2.d)) + 10 * d2.err))
             R.violation(P.type + "/D2F/fd-mismatch", "CalculateD2F(i,j) differs from the numerical derivative of CalculateDF(i) w.r.t. parameter j",
